@@ -295,4 +295,51 @@ theorem decoded_marshals (v : VLA) (hd : Decoded v) (hr : v.rid < v.count) : ∃
   unfold Layer.before at hab; unfold SameSlot at hsame
   omega
 
+/-! ### the length check after ReadLeb128 is dead code -/
+
+theorem readLebGoLoop_le (bs : Bytes) : ∀ (acc : UInt64) (i : Nat) (v : UInt64) (n : Nat),
+    readLebGoLoop bs acc i = some (v, n) → n ≤ i + bs.length := by
+  induction bs with
+  | nil => intro acc i v n h; simp [readLebGoLoop] at h
+  | cons b rest ih =>
+    intro acc i v n h
+    unfold readLebGoLoop at h
+    dsimp only at h
+    split at h
+    · simp only [Option.some.injEq, Prod.mk.injEq] at h
+      simp only [List.length_cons]; omega
+    · have := ih _ _ _ _ h
+      simp only [List.length_cons]; omega
+
+theorem readLebGo_le (bs : Bytes) (v : UInt64) (n : Nat) (h : readLebGo bs = some (v, n)) :
+    n ≤ bs.length := by
+  have := readLebGoLoop_le bs 0 0 v n h
+  omega
+
+/-- `if !ctx.checkRemainingLen(in)` after ReadLeb128 (vlaextension.go:299) can never fire:
+    ReadLeb128 does not report more bytes than the slice it was given -/
+theorem rdRates_never_tooShort (bs : Bytes) (todo : List Int) :
+    ∀ (off o : Nat), off ≤ bs.length → rdRates bs todo off ≠ .fail o .tooShort := by
+  induction todo with
+  | nil => intro off o _ h; simp [rdRates] at h
+  | cons t todo ih =>
+    intro off o hoff h
+    unfold rdRates at h
+    have h1 : ¬ off > bs.length := by omega
+    simp only [h1, if_false] at h
+    split at h
+    · cases h
+    · rename_i kbps n hr
+      have hn := readLebGo_le _ _ _ hr
+      simp only [List.length_drop] at hn
+      have h2 : off + n ≤ bs.length := by omega
+      simp only [h2, not_true_eq_false, if_false] at h
+      split at h
+      · cases h
+      · rename_i o' e heq
+        simp only [RtRes.fail.injEq] at h
+        obtain ⟨rfl, rfl⟩ := h
+        exact ih (off + n) o' h2 heq
+      · cases h
+
 end Rtp.Model.Vla
